@@ -8,7 +8,9 @@ import (
 	"bytes"
 	"fmt"
 	"math/rand"
+	"os"
 	"os/exec"
+	"path/filepath"
 	"reflect"
 	"sort"
 	"strconv"
@@ -21,6 +23,19 @@ func parseDoc(doc map[string]any, env map[string]string) (nfpm.Config, string, e
 	y := docYAML(doc)
 	cfg, err := nfpm.ParseWithEnvMapping(strings.NewReader(y), func(k string) string { return env[k] })
 	return cfg, y, err
+}
+
+// parseDocFile gives the same document to the file entry point (nfpm.ParseFileWithEnvMapping): accepted?, same Config as cfg?
+func parseDocFile(dir, y string, env map[string]string, cfg nfpm.Config, readerErr error) (bool, bool) {
+	p := filepath.Join(dir, "probe.yaml")
+	if os.WriteFile(p, []byte(y), 0o644) != nil {
+		return false, false
+	}
+	c2, err := nfpm.ParseFileWithEnvMapping(p, func(k string) string { return env[k] })
+	if err != nil {
+		return false, readerErr != nil
+	}
+	return true, readerErr == nil && len(snapDiff(snapshot(&cfg), snapshot(&c2))) == 0 && len(snapDiff(snapshot(&c2), snapshot(&cfg))) == 0
 }
 
 func envM(env map[string]string) []M {
@@ -675,7 +690,10 @@ func famParse(tr *Trace, id *int) int {
 		n++
 		tr.Emit(*id, []M{{"ev": "case", "id": *id, "fam": ev["ev"]}, ev, {"ev": "endcase"}})
 	}
-	// (a) every key path accepted as written; a misspelt / unknown sibling at the same level rejected
+	fdir, _ := os.MkdirTemp("", "vparse")
+	defer os.RemoveAll(fdir)
+	// (a) every key path accepted as written; a misspelt / unknown sibling at the same level rejected - by the reader entry
+	// point and by the file entry point alike
 	for _, k := range paths {
 		for _, f := range []string{"deb", "ipk"} {
 			if !strings.Contains(k.String(), "<fmt>") && f != "deb" {
@@ -687,12 +705,13 @@ func famParse(tr *Trace, id *int) int {
 					delete(doc, "version_schema")
 				}
 				setPath(doc, k.Segs, sampleValue(k, 1), f)
-				_, _, err := parseDoc(doc, nil)
+				cfg, y, err := parseDoc(doc, nil)
 				msg := ""
 				if err != nil {
 					msg = safeStr(err.Error())
 				}
-				emit(M{"ev": "probe", "kind": "known", "path": strings.ReplaceAll(k.String(), "<fmt>", f), "accepted": err == nil, "err": msg})
+				af, same := parseDocFile(fdir, y, nil, cfg, err)
+				emit(M{"ev": "probe", "kind": "known", "path": strings.ReplaceAll(k.String(), "<fmt>", f), "accepted": err == nil, "err": msg, "accepted_file": af, "file_same": same})
 			}
 			last := k.Segs[len(k.Segs)-1]
 			if last == "[]" || last == "<fmt>" {
@@ -702,12 +721,13 @@ func famParse(tr *Trace, id *int) int {
 				segs := append(append([]string{}, k.Segs[:len(k.Segs)-1]...), bad)
 				doc := minimalDoc()
 				setPath(doc, segs, "x", f)
-				_, _, err := parseDoc(doc, nil)
+				cfg, y, err := parseDoc(doc, nil)
 				msg := ""
 				if err != nil {
 					msg = safeStr(err.Error())
 				}
-				emit(M{"ev": "probe", "kind": "unknown", "path": strings.ReplaceAll(strings.Join(segs, "."), "<fmt>", f), "accepted": err == nil, "err": msg})
+				af, same := parseDocFile(fdir, y, nil, cfg, err)
+				emit(M{"ev": "probe", "kind": "unknown", "path": strings.ReplaceAll(strings.Join(segs, "."), "<fmt>", f), "accepted": err == nil, "err": msg, "accepted_file": af, "file_same": same})
 			}
 		}
 	}
